@@ -417,4 +417,278 @@ theorem unseenCount_le_length (h : Heap) (s : List ExcId) : unseenCount h s ≤ 
   have := List.countP_le_length (p := fun i => !(s.contains i)) (l := List.range h.length)
   simpa using this
 
+/-! ### `seen` only grows -/
+
+theorem members_seen_mono (h : Heap) (f : List ExcId → ExcId → Res) (nesting total : Nat)
+    (hf : ∀ s m r s', f s m = .ok (r, s') → ∀ i ∈ s, i ∈ s') :
+    ∀ (ms : List ExcId) (n : Nat) (seen : List ExcId) (last : Option ExcId) ps s l,
+      members h f nesting total n ms seen last = .ok (ps, s, l) → ∀ i ∈ seen, i ∈ s := by
+  intro ms
+  induction ms with
+  | nil => intro n seen last ps s l he; simp [members] at he; obtain ⟨_, rfl, _⟩ := he; simp
+  | cons m ms ih =>
+    intro n seen last ps s l he
+    simp only [members] at he
+    split at he
+    · simp at he; obtain ⟨_, rfl, _⟩ := he; simp
+    · split at he
+      · split at he
+        · rename_i ps' s' l' hrec
+          simp at he; obtain ⟨_, rfl, _⟩ := he
+          exact ih _ _ _ _ _ _ hrec
+        · simp at he
+      · split at he
+        · simp at he
+        · rename_i r s1 hfm
+          split at he
+          · rename_i ps' s' l' hrec
+            simp at he; obtain ⟨_, rfl, _⟩ := he
+            intro i hi
+            exact ih _ _ _ _ _ _ hrec i (hf _ _ _ _ hfm i hi)
+          · simp at he
+
+theorem fmt_seen_mono (h : Heap) (o : Opts) :
+    ∀ (budget : Nat) (seen : List ExcId) (e : ExcId) (isFirst fromDec : Bool) (nesting : Nat) ps s,
+      fmt h o budget seen e isFirst fromDec nesting = .ok (ps, s) → ∀ i ∈ seen, i ∈ s := by
+  intro budget
+  induction budget with
+  | zero =>
+    intro seen e isFirst fromDec nesting ps s hf
+    simp only [fmt] at hf
+    split at hf
+    · simp at hf; obtain ⟨_, rfl⟩ := hf; simp
+    · simp at hf
+  | succ b ih =>
+    intro seen e isFirst fromDec nesting ps s hf
+    simp only [fmt] at hf
+    split at hf
+    · simp at hf; obtain ⟨_, rfl⟩ := hf; simp
+    · rename_i x hx'
+      have hadd : ∀ i ∈ seen, i ∈ addSeen seen e := fun i hi => (mem_addSeen seen e i).2 (Or.inr hi)
+      split at hf
+      · simp at hf
+      · rename_i co s2 hco
+        have hs2 : ∀ i ∈ addSeen seen e, i ∈ s2 := by
+          split at hco
+          · simp at hco; obtain ⟨_, rfl⟩ := hco; simp
+          · split at hco
+            · simp at hco
+            · rename_i r s' hrec
+              simp at hco; obtain ⟨_, rfl⟩ := hco
+              exact ih _ _ _ _ _ _ _ hrec
+        split at hf
+        · split at hf
+          · simp at hf
+          · rename_i r s' hrec
+            simp at hf; obtain ⟨_, rfl⟩ := hf
+            intro i hi
+            exact ih _ _ _ _ _ _ _ hrec i (hs2 i (hadd i hi))
+        · split at hf
+          · simp at hf; obtain ⟨_, rfl⟩ := hf
+            intro i hi; exact hs2 i (hadd i hi)
+          · rename_i ms hms
+            split at hf
+            · simp at hf
+            · rename_i mps s' last hmem
+              simp at hf; obtain ⟨_, rfl⟩ := hf
+              have := members_seen_mono h _ nesting ms.length
+                (fun s m r s' hfm => ih s m false false (nesting + 1) r s' hfm) ms 1 s2 none mps _ last hmem
+              intro i hi; exact this i (hs2 i (hadd i hi))
+
+theorem nextLink_not_mem (x : Exn) (s : List ExcId) (b : Bool) (c : ExcId) (hn : nextLink x s = some (b, c)) :
+    c ∉ s := by
+  have := link_agree x 0 s
+  rw [hn] at this
+  cases b
+  · exact this.2.2.2.2.1
+  · exact this.2.2.2.1
+
+/-! ### the budget that suffices -/
+
+/-- exception groups are well-founded (`exceptions` is an immutable tuple built from existing
+exceptions): members have a smaller rank than their group, ranks are bounded by `R` -/
+structure Ranked (h : Heap) (rank : ExcId → Nat) (R : Nat) : Prop where
+  le : ∀ i, rank i ≤ R
+  lt : ∀ g x ms m, h[g]? = some x → x.group = some ms → m ∈ ms → rank m < rank g
+
+/-- recursion depth `_format_exception` can reach from this call: lexicographic in (exceptions not
+yet seen, group rank, "still at nesting 0") -/
+def depthBound (h : Heap) (rank : ExcId → Nat) (R : Nat) (seen : List ExcId) (e : ExcId) (nesting : Nat) : Nat :=
+  unseenCount h (addSeen seen e) * (2 * R + 3) + 2 * rank e + (if nesting = 0 then 1 else 0)
+
+theorem members_total (h : Heap) (f : List ExcId → ExcId → Res) (nesting total : Nat) (S0 : List ExcId) :
+    ∀ (ms : List ExcId),
+      (∀ s m, m ∈ ms → (∀ i ∈ S0, i ∈ s) → ∃ r s', f s m = .ok (r, s') ∧ ∀ i ∈ s, i ∈ s') →
+      ∀ (n : Nat) (seen : List ExcId) (last : Option ExcId), (∀ i ∈ S0, i ∈ seen) →
+        ∃ out, members h f nesting total n ms seen last = .ok out := by
+  intro ms
+  induction ms with
+  | nil => intro _ n seen last _; exact ⟨_, rfl⟩
+  | cons m ms ih =>
+    intro hf n seen last hsub
+    have ih' := ih (fun s m' hm' hs => hf s m' (List.mem_cons_of_mem _ hm') hs)
+    simp only [members]
+    split
+    · exact ⟨_, rfl⟩
+    · split
+      · obtain ⟨out, ho⟩ := ih' (n + 1) seen (some m) hsub
+        obtain ⟨ps, s, l⟩ := out
+        simp [ho]
+      · obtain ⟨r, s1, hfm, hmono⟩ := hf seen m (List.mem_cons_self ..) hsub
+        obtain ⟨out, ho⟩ := ih' (n + 1) s1 (some m) (fun i hi => hmono i (hsub i hi))
+        obtain ⟨ps, s, l⟩ := out
+        simp [hfm, ho]
+
+theorem fmt_total (h : Heap) (o : Opts) (rank : ExcId → Nat) (R : Nat) (hr : Ranked h rank R) :
+    ∀ (budget : Nat) (seen : List ExcId) (e : ExcId) (isFirst fromDec : Bool) (nesting : Nat),
+      depthBound h rank R seen e nesting < budget →
+      ∃ out, fmt h o budget seen e isFirst fromDec nesting = .ok out := by
+  intro budget
+  induction budget with
+  | zero => intro seen e isFirst fromDec nesting hb; omega
+  | succ b ih =>
+    intro seen e isFirst fromDec nesting hb
+    cases hx : h[e]? with
+    | none => exact ⟨_, fmt_dangling h o _ _ _ _ _ _ hx⟩
+    | some x =>
+      unfold depthBound at hb
+      generalize hK : 2 * R + 3 = K at hb
+      have hre := hr.le e
+      -- a call on `c` with a `seen` that extends `addSeen seen e` and does not contain `c`
+      have hchain : ∀ c, c ∉ addSeen seen e → ∀ a1 a2, ∃ out, fmt h o b (addSeen seen e) c a1 a2 nesting = .ok out := by
+        intro c hc a1 a2
+        cases hcx : h[c]? with
+        | none => exact ⟨_, fmt_dangling h o _ _ _ _ _ _ hcx⟩
+        | some y =>
+          have hclt : c < h.length := (List.getElem?_eq_some_iff.mp hcx).1
+          have hlt := unseenCount_cons_lt h (addSeen seen e) c hclt hc
+          apply ih
+          unfold depthBound
+          rw [addSeen_of_not_mem _ _ hc, hK]
+          have hrc := hr.le c
+          have hmul : (unseenCount h (c :: addSeen seen e) + 1) * K ≤ unseenCount h (addSeen seen e) * K :=
+            Nat.mul_le_mul_right K hlt
+          rw [Nat.add_mul, Nat.one_mul] at hmul
+          split <;> split at hb <;> omega
+      simp only [fmt, hx]
+      -- the chain part succeeds and returns a larger `seen`
+      split
+      · rename_i err heq
+        exfalso
+        split at heq
+        · simp at heq
+        · rename_i isCause c hn
+          obtain ⟨⟨r, s⟩, hrs⟩ := hchain c (nextLink_not_mem x _ _ _ hn) false false
+          rw [hrs] at heq
+          simp at heq
+      rename_i co s2 heq
+      have hco2 : ∀ i ∈ addSeen seen e, i ∈ s2 := by
+        split at heq
+        · simp at heq; obtain ⟨_, rfl⟩ := heq; simp
+        · split at heq
+          · simp at heq
+          · rename_i r s' hrec
+            simp at heq; obtain ⟨_, rfl⟩ := heq
+            exact fmt_seen_mono h o _ _ _ _ _ _ _ _ hrec
+      have hu2 : ∀ s, (∀ i ∈ s2, i ∈ s) → unseenCount h s ≤ unseenCount h (addSeen seen e) :=
+        fun s hs => unseenCount_mono h _ _ (fun i hi => hs i (hco2 i hi))
+      split
+      · -- root group: same exception again at nesting 1
+        rename_i hg
+        have hn0 : nesting = 0 := by simp at hg; exact hg.2
+        have : ∃ out, fmt h o b s2 e isFirst fromDec 1 = .ok out := by
+          apply ih
+          unfold depthBound
+          rw [hK]
+          have hle := hu2 (addSeen s2 e) (fun i hi => (mem_addSeen s2 e i).2 (Or.inr hi))
+          have hmul : unseenCount h (addSeen s2 e) * K ≤ unseenCount h (addSeen seen e) * K :=
+            Nat.mul_le_mul_right K hle
+          simp only [hn0, if_true] at hb
+          simp; omega
+        obtain ⟨⟨r, s⟩, hrs⟩ := this
+        simp [hrs]
+      · cases hgrp : x.group with
+        | none => exact ⟨_, rfl⟩
+        | some ms =>
+          simp only
+          have hmem := members_total h (fun s m => fmt h o b s m false false (nesting + 1)) nesting ms.length s2 ms
+            (by
+              intro s m hm hs
+              have hlt := hr.lt e x ms m hx hgrp hm
+              have : ∃ out, fmt h o b s m false false (nesting + 1) = .ok out := by
+                apply ih
+                unfold depthBound
+                rw [hK]
+                have hle := hu2 (addSeen s m) (fun i hi => (mem_addSeen s m i).2 (Or.inr (hs i hi)))
+                have hmul : unseenCount h (addSeen s m) * K ≤ unseenCount h (addSeen seen e) * K :=
+                  Nat.mul_le_mul_right K hle
+                simp
+                split at hb <;> omega
+              obtain ⟨⟨r, s'⟩, hrs⟩ := this
+              exact ⟨r, s', hrs, fmt_seen_mono h o _ _ _ _ _ _ _ _ hrs⟩)
+            1 s2 none (fun i hi => hi)
+          obtain ⟨⟨ps, s, l⟩, hout⟩ := hmem
+          simp [hout]
+
+/-! ### `_extract_frames` -/
+
+theorem markLast_fr : ∀ l : List Frame, (markLast l).map (·.fr) = l
+  | [] => rfl
+  | [_] => rfl
+  | f :: g :: rest => by
+    have := markLast_fr (g :: rest)
+    simp only [markLast, List.map_cons] at *
+    rw [this]
+
+theorem unmarked_fr (l : List Frame) : (unmarked l).map (·.fr) = l := by
+  simp [unmarked, List.map_map, Function.comp_def]
+
+theorem unmarked_mark (l : List Frame) : ∀ s ∈ unmarked l, s.mark = false := by
+  intro s hs; simp [unmarked] at hs; obtain ⟨_, _, rfl⟩ := hs; rfl
+
+theorem markLast_marks : ∀ l : List Frame, (markLast l).map (·.mark) = (List.replicate (l.length - 1) false) ++ (if l.isEmpty then [] else [true])
+  | [] => rfl
+  | [_] => rfl
+  | f :: g :: rest => by
+    have := markLast_marks (g :: rest)
+    simp only [markLast, List.map_cons, List.length_cons] at *
+    rw [this]
+    simp [List.replicate_succ]
+
+theorem mem_applyLimit {α : Type} (limit : Option Int) (l : List α) (a : α) (h : a ∈ applyLimit limit l) : a ∈ l := by
+  cases limit with
+  | none => exact h
+  | some k => exact List.mem_of_mem_drop h
+
+/-- the caller frames `_extract_frames` puts in front of the traceback's own frames -/
+def callerFrames (o : Opts) (isFirst fromDec : Bool) (parents : List Frame) : List Frame :=
+  if fromDec && !o.backtrace then (visible parents).take 1
+  else if o.backtrace && isFirst then (visible parents).reverse
+  else []
+
+theorem foldFrames_sublist (o : Opts) (d : Nat) :
+    ∀ (fs : List Shown) last count,
+      ((foldFrames o d last count fs).filterMap Piece.frameInfo?).Sublist (fs.map (fun s => (s.fr.info, s.mark))) := by
+  intro fs
+  induction fs with
+  | nil =>
+    intro last count
+    simp only [foldFrames, skipPieces]
+    split <;> simp [Piece.frameInfo?]
+  | cons s rest ih =>
+    intro last count
+    have hfp : (framePieces o d s).filterMap Piece.frameInfo? = [(s.fr.info, s.mark)] := by
+      simp only [framePieces, List.filterMap_cons, Piece.frameInfo?]
+      split <;> simp [List.filterMap_map, Function.comp_def, Piece.frameInfo?]
+    have hsk : ∀ c, (skipPieces c d).filterMap Piece.frameInfo? = [] := by
+      intro c; simp only [skipPieces]; split <;> simp [Piece.frameInfo?]
+    simp only [foldFrames, List.map_cons]
+    split
+    · split
+      · exact List.Sublist.cons _ (ih _ _)
+      · rw [List.filterMap_append, hfp]
+        exact List.Sublist.cons_cons _ (ih _ _)
+    · rw [List.filterMap_append, List.filterMap_append, hfp, hsk]
+      exact List.Sublist.cons_cons _ (ih _ _)
+
 end Exc
